@@ -2,7 +2,7 @@
 # evaluates benign/small/<Sxx>_<k>.diff: scratch worktree, pinned suite, all quick checks with the current binary
 cd /verif
 export GOFLAGS=-mod=mod GOPROXY=off GOSUMDB=off GOTOOLCHAIN=local; unset GOWORK
-cp bin/evalsa /tmp/sw/evalsa_small
+mkdir -p /tmp/sw; cp ${EVALSA:-bin/evalsa} /tmp/sw/evalsa_small
 one() {
   f=$(readlink -f $1); id=$(basename $f .diff)
   wt=/tmp/sw/small_$id
